@@ -27,7 +27,7 @@ CAND = {
     "string": [("'a'", V), ("''", V), ("b'raw\\xff'", V), ("'\\udc80'", V), ("5", W), ("1.5", W), ("['a']", W), ("None", V), ("chr(0xd800)", V)],
     "wstring": [("'w'", V), ("b'\\xfe'", V), ("7", W), ("None", V)],
     "uri": [("'http://h/p'", V), ("b'http://\\xff'", V), ("5", W), ("None", V)],
-    "bytes": [("b'a'", V), ("b''", V), ("'text'", R), ("5", R), ("['a']", R), ("bytes(3)", V), ("None", V), ("1.5", R)],
+    "bytes": [("b'a'", V), ("b''", V), ("'text'", R), ("5", R), ("['a']", R), ("bytes(3)", V), ("None", V), ("1.5", R), ("bytearray(b'ab')", W), ("memoryview(b'ab')", W)],
     "varint": [("0", V), ("-2**70", V), ("True", W), ("1.5", W), ("'5'", W), ("'x'", W), ("None", V), ("[1]", W)],
     "filesize": [("0", V), ("2**64", V), ("'12'", W), ("None", V)],
     "unix_file_mode": [("0o644", V), ("-1", V), ("'0644'", W), ("None", V)],
@@ -39,6 +39,7 @@ CAND = {
     "float": [("1.5", V), ("nan", V), ("3", V), ("'1.5'", W), ("'x'", W), ("None", V), ("True", W)],
     "datetime": [("dt(2020,1,1)", V), ("dt(2020,1,1,tz=off(5,30))", V), ("'2020-01-01T00:00:00'", V), ("1600000000", V), ("'not a date'", W), ("None", V),
                  ("b'2020-01-01'", V), ("1e20", W), ("0", V), ("0.0", V), ("False", W),
+                 ("dt(1,1,1,0,0,0)", V), ("dt(9999,12,31,23,59,59,999999)", V),
                  # values built through the field type class itself, by every constructor it inherits
                  ("ft.datetime(2020,1,1,tzinfo=None)", V), ("ft.datetime(2020,1,1,0,0,0,0,None)", V), ("ft.datetime(2020,1,1,0,0,0,0)", V),
                  ("ft.datetime.combine(date(2020,1,1), time(1,2,3))", V), ("ft.datetime.combine(date(2020,1,1), time(1,2,3,tzinfo=off(2)))", V),
@@ -51,6 +52,8 @@ CAND = {
                ("('da39a3ee5e6b4b0d3255bfef95601890afd80709', None, None)", R), ("{'md5': 'd41d8cd98f00b204e9800998ecf8427e'}", V), ("{'sha1': 'abc'}", R),
                ("('d41d8cd98f00b204e9800998ecf8427e\\n', None, None)", R), ("('d41d8cd98f00b204 e9800998ecf8427e00', None, None)", R), ("(' d41d8cd98f00b204e9800998ecf8427e', None, None)", R),
                ("('d41d8cd98f00b204e9800998ecf8427\\te0', None, None)", R), ("(None, 'da39a3ee5e6b4b0d3255bfef95601890afd80709\\r\\n', None)", R),
+               ("('0x1d8cd98f00b204e9800998ecf8427e', None, None)", R), ("('d41d_cd98f00b204e9800998ecf8427e', None, None)", R), ("('+41d8cd98f00b204e9800998ecf8427e', None, None)", R),
+               ("(None, '0Xa39a3ee5e6b4b0d3255bfef95601890afd8070', None)", R), ("(None, None, '-3b0c44298fc1c149afbf4c8996fb92427ae41e4649b934ca495991b7852b85')", R),
                ("None", V), ("(None, None, None)", V)],
     "path": [("'/a/b'", V), ("''", V), ("windows_path('C:\\\\a')", V), ("PWP('D:\\\\x')", V), ("5", W), ("None", V), ("b'/raw'", W)],
     "command": [("'ls -l'", V), ("'C:\\\\x.exe /a'", V), ("5", W), ("None", V), ("['ls']", W)],
@@ -99,6 +102,11 @@ def slot_invariant(rec, where, case, viol):
             viol.append(("C05:naive-timestamp:%s:%s" % (tname, where), case, {"field": k}))
         if ok and ftype in (ft.string, ft.uri) and not isinstance(v, str):
             ok = False
+        if ok and ftype is ft.uri and not all(isinstance(getattr(v, a, ""), str) for a in ("scheme", "netloc", "path", "filename")):
+            viol.append(("C05:slot-not-declared-type:uri:%s:parts-not-text" % where, case, {"field": k, "scheme": repr(getattr(v, "scheme", None))}))
+        if ok and ftype is ft.bytes and type(getattr(v, "value", b"")) is not bytes:
+            # the payload the packers write must be the immutable value the field shows, not the caller's buffer
+            viol.append(("C05:slot-not-declared-type:bytes:%s:payload-%s" % (where, type(v.value).__name__), case, {"field": k}))
         if not ok:
             kind = type(v).__name__ if not isinstance(v, list) else "list[%s]" % ",".join(sorted({type(e).__name__ for e in v}))
             viol.append(("C05:slot-not-declared-type:%s:%s:holds-%s" % (tname, where, kind), case, {"field": k, "value": repr(v)[:80]}))
@@ -455,6 +463,8 @@ def run_case(case):
         label = "%s:%s" % (t, ev[0] if ev[0] != "from" else "x")
         if exc is not None:
             outs.append("rejected")
+            if expect == V:
+                viol.append(("C05:valid-value-rejected:%s:%s" % (label, type(exc).__name__), case, {"step": step, "event": ev, "error": repr(exc)[:120]}))
             if after != before:
                 viol.append(("C05:failed-assignment-changed-record:%s" % label, case, {"step": step, "event": ev, "error": repr(exc)[:120]}))
         else:
@@ -556,7 +566,8 @@ def cases(tier, seed):
 
 
 ENVS = [{"FLOW_RECORD_TZ": "NONE"}, {"FLOW_RECORD_TZ": "Europe/Amsterdam"}, {"FLOW_RECORD_IGNORE": "_generated,x,xs"},
-        {"FLOW_RECORD_TZ": "none", "FLOW_RECORD_IGNORE": "x"}, {"FLOW_RECORD_TZ": "America/St_Johns"}]
+        {"FLOW_RECORD_TZ": "none", "FLOW_RECORD_IGNORE": "x"}, {"FLOW_RECORD_TZ": "America/St_Johns"},
+        {"TZ": "Europe/Amsterdam"}, {"TZ": "XXX-5"}]  # (the process's local zone must not enter: naive means UTC)
 
 
 def main(tier, seed, workers=None):
